@@ -3,6 +3,7 @@ package node
 import (
 	"fmt"
 	"net"
+	"sync"
 	"testing"
 	"time"
 
@@ -208,4 +209,137 @@ func runC14IdleConfigured(client bool, idle, period time.Duration) error {
 		}
 	}
 	return nil
+}
+
+// TestC14IdleTimeoutDefaultIsItsOwn: a node whose idle timeout is left at its default (60 s) keeps a channel whose
+// peer pauses for about a second, whatever the other timeouts of the node are set to (the timeout of connection
+// attempts, the write timeout) and whichever way the node was built.
+func TestC14IdleTimeoutDefaultIsItsOwn(t *testing.T) {
+	rec := evid.New(t, "C14", "each case: TCP server, TCP client and UDP server endpoints of nodes built with Node.Initialize and with the deprecated NewNode(NodeConf) (six nodes side by side), IdleTimeout left unset, ReadTimeout and/or WriteTimeout set to 150..400 ms; the peer sends a frame, pauses for 3 x the larger of the two + 300 ms, sends another one: both surface on one channel and no close event is seen (the default idle timeout is 60 s); non-trivial = node built by NewNode with ReadTimeout set; distinct by hash of the parameters")
+	rec.Require("built-by-NewNode-with-ReadTimeout-set", "built-by-Initialize", "tcp-client", "udp-server")
+	evid.Check(t, rec, evid.N(4, 20), func(t *rapid.T) {
+		rto := time.Duration(rapid.IntRange(150, 400).Draw(t, "read_timeout_ms")) * time.Millisecond
+		wto := time.Duration(rapid.IntRange(150, 400).Draw(t, "write_timeout_ms")) * time.Millisecond
+		switch rapid.IntRange(0, 3).Draw(t, "which_set") {
+		case 0:
+			wto = 0
+		}
+		desc0 := fmt.Sprintf("ReadTimeout=%v WriteTimeout=%v (0 = unset) IdleTimeout unset", rto, wto)
+		// every way of building the node and every kind of endpoint, side by side
+		type combo struct {
+			via    bool
+			epKind string
+		}
+		var combos []combo
+		for _, via := range []bool{false, true} {
+			for _, k := range []string{"tcp-server", "tcp-client", "udp-server"} {
+				combos = append(combos, combo{via, k})
+			}
+		}
+		errs := make([]error, len(combos))
+		var wg sync.WaitGroup
+		for ci, c := range combos {
+			wg.Add(1)
+			go func(ci int, viaConf bool, epKind string) {
+				defer wg.Done()
+				errs[ci] = watchdog(scenarioLimit, func() error {
+					port := sim.FreePort()
+					var ep gomavlib.EndpointConf
+					var l net.Listener
+					switch epKind {
+					case "tcp-server":
+						ep = gomavlib.EndpointTCPServer{Address: sim.Addr(port)}
+					case "udp-server":
+						ep = gomavlib.EndpointUDPServer{Address: sim.Addr(port)}
+					case "tcp-client":
+						ep = gomavlib.EndpointTCPClient{Address: sim.Addr(port)}
+						var err error
+						if l, err = net.Listen("tcp4", sim.Addr(port)); err != nil {
+							return fmt.Errorf("BROKEN: listen: %v", err)
+						}
+						defer l.Close()
+					}
+					n := &gomavlib.Node{Endpoints: []gomavlib.EndpointConf{ep}, Dialect: ardupilotmega.Dialect, OutVersion: gomavlib.V2, OutSystemID: nodeSys,
+						HeartbeatDisable: true, ReadTimeout: rto, WriteTimeout: wto}
+					if err := initNodeVia(&n, viaConf); err != nil {
+						return fmt.Errorf("BROKEN: %v", err)
+					}
+					rec := sim.StartRecorder(n, sim.Pacing{Kind: "fast"}, nil)
+					defer func() {
+						closeNode(n, bound) //nolint:errcheck
+						rec.WaitClosed(bound)
+					}()
+					var peer *sim.Peer
+					if l != nil {
+						l.(*net.TCPListener).SetDeadline(time.Now().Add(bound)) //nolint:errcheck
+						c, err := l.Accept()
+						if err != nil {
+							return fmt.Errorf("the client endpoint did not connect within %v: %v", bound, err)
+						}
+						peer = sim.WrapConn(c)
+					} else {
+						var err error
+						if peer, err = sim.Dial(map[string]string{"tcp-server": "tcp4", "udp-server": "udp4"}[epKind], sim.Addr(port)); err != nil {
+							return fmt.Errorf("BROKEN: dial: %v", err)
+						}
+					}
+					defer peer.Close()
+					frames := func(recs []sim.Rec) int {
+						k := 0
+						for _, e := range recs {
+							if _, ok := e.Ev.(*gomavlib.EventFrame); ok {
+								k++
+							}
+						}
+						return k
+					}
+					peer.Send(tagged(1, 0, "debug", true, nil, 0).Bytes()) //nolint:errcheck
+					if !rec.WaitFor(bound, func(recs []sim.Rec) bool { return frames(recs) >= 1 }) {
+						return fmt.Errorf("the peer's first frame did not surface within %v", bound)
+					}
+					pause := rto
+					if wto > pause {
+						pause = wto
+					}
+					pause = 3*pause + 300*time.Millisecond
+					time.Sleep(pause)
+					peer.Send(tagged(1, 1, "debug", true, nil, 0).Bytes()) //nolint:errcheck
+					rec.WaitFor(bound, func(recs []sim.Rec) bool { return frames(recs) >= 2 })
+					opens, closes := 0, 0
+					var cerr error
+					for _, e := range lifecycle(rec.Snapshot()) {
+						if e.open {
+							opens++
+						} else {
+							closes++
+							cerr = e.err
+						}
+					}
+					if closes > 0 || opens != 1 {
+						return fmt.Errorf("the peer paused for %v between two frames; the node's idle timeout was left at its default of 60 s (node.IdleTimeout reads %v): %d open and %d close events, the close says: %v", pause, n.IdleTimeout, opens, closes, cerr)
+					}
+					if frames(rec.Snapshot()) != 2 {
+						return fmt.Errorf("the frame sent after a pause of %v did not surface within %v", pause, bound)
+					}
+					return nil
+				})
+			}(ci, c.via, c.epKind)
+		}
+		wg.Wait()
+		for ci, err := range errs {
+			if err != nil {
+				desc := fmt.Sprintf("viaNewNode=%v endpoint=%s %s", combos[ci].via, combos[ci].epKind, desc0)
+				evid.ReplayNote("C14", "TestC14IdleTimeoutDefaultIsItsOwn", desc+"\n"+err.Error())
+				t.Fatalf("%s\n%v", desc, err)
+			}
+		}
+		cls := []string{"tcp-client", "udp-server", "built-by-Initialize"}
+		if rto > 0 {
+			cls = append(cls, "built-by-NewNode-with-ReadTimeout-set")
+		}
+		rec.Case(rto > 0, evid.HashS(desc0), cls...)
+		if rec.WantSample("idle-default") {
+			rec.Sample("idle-default", desc0)
+		}
+	})
 }
